@@ -28,8 +28,15 @@ func OnAttachPath(a Access) bool {
 	return false
 }
 
+// consumerAccess: what consumers are known to do with cached block data:
+// read it; and, in eth.Tx.Hash, memoise the transaction hash under the
+// transaction's own mutex.  A consumer WRITE anywhere else is not exempt.
+func consumerAccess(x GAcc) bool {
+	return x.A.Kind == Rd || HeldSelf(x, "eth.Tx.cacheMut") || (x.A.Kind == At && x.A.Cls == "eth.Tx.cacheMut")
+}
+
 func KnownExempt(x, y GAcc) bool {
-	return blockDataClass(x.A.Cls) &&
+	return blockDataClass(x.A.Cls) && consumerAccess(x) &&
 		!OnAttachPath(x.A) && !HeldSelf(x, "eth.Block") &&
 		OnAttachPath(y.A) && (HeldSelf(y, "eth.Block") || (y.A.Kind == At && y.A.Cls == "eth.Block.Mutex"))
 }
